@@ -128,6 +128,17 @@ def merged_fields(db, ctx):
                     srcf = peel(p["args"][0])
                     fn_ = srcf.get("name") if srcf.get("k") == "Field" else None
                     fields.add((tgt, fn_, in_order))
+        # the merged surface must be one of the concatenated strings, and the record must not inherit anything else from a part
+        has_surface = any(tgt == "surface" and fn_ == "surface" and in_order for tgt, fn_, in_order in fields)
+        ctx.ob("%s|surface-is-concatenation" % nm, has_surface,
+               "%s builds the merged surface by concatenating the parts' dictionary surfaces over path[begin..end]: %s" % (nm, has_surface), fn=f)
+        for n_, _ in walk(f.hir):
+            if n_.get("k") == "Struct" and (n_.get("path") or "").endswith("WordInfoData"):
+                base = n_.get("base")
+                base_ok = base is None or (is_call(peel(base)) and path_ends(callee(peel(base)) or "", ("Default::default", "default")))
+                ctx.ob("%s|record-base" % nm, base_ok,
+                       "%s: the merged word info is completed from `%s` (must be Default::default(): split lists / word structure / synonym ids of a "
+                       "part must not carry over — they would be applied to the merged range by A/B splitting)" % (nm, render(base) if base else "nothing"), fn=f, site=n_.get("sp"))
         for tgt, fn_, in_order in sorted(fields, key=str):
             ok = in_order and tgt is not None and fn_ is not None and (tgt == fn_ or (tgt == "norm" and fn_ == "normalized_form"))
             ctx.ob("%s|concat(%s)" % (nm, tgt), ok, "%s: `%s` is built by pushing each node's .%s in order over path[begin..end]: %s" % (nm, tgt, fn_, ok), fn=f)
